@@ -203,7 +203,7 @@ StartNode(f, n) ==
   ELSE [f EXCEPT !.pending = [x \in (DOMAIN f.pending) \ {n} |-> f.pending[x]], !.running = f.running \cup {n},
                  !.cleared = f.cleared \ {n}, !.preDone = f.preDone \ {n}, !.redo = f.redo \ {n}, !.fresh = FALSE,
                  !.ins = (n :> f.pending[n]) @@ f.ins, !.canceled = f.canceled \/ FailKind(f.g, n) = "cancel"]
-Open(gg, V, p) == LET n == SubNode(gg, p) IN (p :> NewFrame(SubOf(gg, n), V[""].pending[n])) @@ ("" :> StartNode(V[""], n)) @@ V
+Open(gg, V, p) == LET n == SubNode(gg, p) IN (p :> Norm(NewFrame(SubOf(gg, n), V[""].pending[n]))) @@ ("" :> StartNode(V[""], n)) @@ V
 \* why a graph node may not start (checked when its frame opens)
 OpenWhy(gg, V, p) == LET f == V[""]  n == SubNode(gg, p) IN
   IF n \in IBefore(f.g) /\ n \notin f.cleared THEN "before-node-ran-without-interrupt"
@@ -262,7 +262,14 @@ OnDone(S, e) ==
        ELSE [S EXCEPT !.fr[p] = FinishNode(f, n, OutOf(n, f.ins[n]))]
 
 OnBranch(S, e) ==
-  LET p == e.p  F == Absorb(S.g, S.fr, p) IN
+  LET p == e.p
+      F0 == Absorb(S.g, S.fr, p)
+      V0 == [q \in DOMAIN F0 |-> Norm(F0[q])]
+      \* a graph node whose inner START has a branch reports that branch first: it opens the frame (kept un-normalised: routing)
+      F == IF p \notin DOMAIN F0 /\ CanOpen(S.g, V0, p) /\ OpenWhy(S.g, V0, p) = "ok"
+           THEN (p :> NewFrame(SubOf(S.g, SubNode(S.g, p)), V0[""].pending[SubNode(S.g, p)])) @@ ("" :> StartNode(V0[""], SubNode(S.g, p))) @@ F0
+           ELSE F0
+  IN
   IF p \notin DOMAIN F THEN BadS(S, "branch-in-unknown-frame")
   ELSE LET f == F[p]  b == e.b IN
        IF b \notin 1..NB(f.g) THEN BadS(S, "unknown-branch")
@@ -288,18 +295,27 @@ InfoWhy(gg, V, p, info) == LET f == V[p]  subs == {SubNode(gg, q) : q \in Active
   ELSE IF Range(info.before) # ExpBefore(V, p) THEN "before-list-not-exact"
   ELSE IF DOMAIN info.sub # subs THEN "nested-interrupt-info-not-exact"
   ELSE IF Range(info.before) \cup Range(info.after) \cup Range(info.rerun) \cup DOMAIN info.sub = {} THEN "empty-interrupt"
-  ELSE IF info.hasst # f.g.state THEN "interrupt-info-state-presence"
-  ELSE IF f.g.state /\ info.st # f.trail THEN "interrupt-info-state-mismatch"
+  \* (a nested graph without state of its own reports the state it inherits from its parent: only the top level is judged)
+  ELSE IF p = "" /\ info.hasst # f.g.state THEN "interrupt-info-state-presence"
+  ELSE IF p = "" /\ f.g.state /\ info.st # f.trail THEN "interrupt-info-state-mismatch"
   ELSE LET badq == {q \in ActiveSubs(V, p) : InfoWhy(gg, V, q, info.sub[SubNode(gg, q)]) # "ok"} IN
        IF badq # {} THEN (LET q == CHOOSE x \in badq : TRUE IN InfoWhy(gg, V, q, info.sub[SubNode(gg, q)]))
        ELSE "ok"
-AfterInterrupt(f, info) == [f EXCEPT !.cleared = Range(info.before), !.afterDue = {}, !.afterBlock = {}, !.aborted = {}, !.redo = f.aborted]
+\* (an aborted attempt of a before-node was already reported and resumed: its re-run needs no second report)
+AfterInterrupt(f, info) == [f EXCEPT !.cleared = Range(info.before) \cup (f.aborted \cap IBefore(f.g)), !.afterDue = {}, !.afterBlock = {}, !.aborted = {}, !.redo = f.aborted]
 ExpSets(gg) == IF gg.noid THEN <<>> ELSE <<"cp-" \o gg.id>>
 
+\* a graph node that is due may be interrupted before any of its inner nodes ran (interrupt-before at its entry): the report opens its frame
+RECURSIVE OpenReported(_, _, _)
+OpenReported(gg, V, names) ==
+  IF names = {} THEN V
+  ELSE LET n == CHOOSE x \in names : TRUE  p == n \o "/" IN
+       IF n \in SubNames(gg) /\ CanOpen(gg, V, p) /\ OpenWhy(gg, V, p) = "ok" THEN OpenReported(gg, Open(gg, V, p), names \ {n})
+       ELSE OpenReported(gg, V, names \ {n})
 OnInterrupt(S, e) ==
-  LET V == View(S)  why == InfoWhy(S.g, V, "", e) IN
+  LET V == OpenReported(S.g, View(S), DOMAIN e.sub)  why == InfoWhy(S.g, V, "", e) IN
   IF why # "ok" THEN BadS(S, why)
-  ELSE IF ~S.top.progress THEN BadS(S, "interrupt-without-progress")
+  ELSE IF ~S.top.progress /\ DOMAIN V = DOMAIN View(S) THEN BadS(S, "interrupt-without-progress")   \* (entering a graph node is progress)
   ELSE IF e.sets # ExpSets(S.g) THEN BadS(S, "checkpoint-not-written-exactly-once-under-the-id")
   ELSE [S EXCEPT !.fr = [p \in DOMAIN V |-> AfterInterrupt(V[p], IF p = "" THEN e ELSE e.sub[SubNode(S.g, p)])],
                  !.top.st = "interrupted", !.top.progress = FALSE]
